@@ -78,10 +78,21 @@ func c15errS(err error, tmplOp map[error]int) string {
 
 func c15(g *Gen) {
 	n := g.N(600, 20000)
-	delims := [][2]string{{"$", "$"}, {"{{", "}}"}, {"@", "@"}, {"<<", ">>"}}
+	// an empty delimiter means text/template's default for THAT side
+	delims := [][2]string{{"$", "$"}, {"{{", "}}"}, {"@", "@"}, {"<<", ">>"}, {"$", ""}, {"", "@"}, {"", ""}}
 	for i := 0; i < n; i++ {
 		ns, nsNames := g.c15namers()
 		d := delims[g.R.Intn(len(delims))]
+		if i%9 == 4 {
+			d = delims[4+(i/9)%3]
+		}
+		srcL, srcR := d[0], d[1]
+		if srcL == "" {
+			srcL = "{{"
+		}
+		if srcR == "" {
+			srcR = "}}"
+		}
 		ty := &types.Type{Name: types.Name{Package: "ex.test/pkg", Name: "Foo"}, Kind: types.Struct}
 		data := map[string]interface{}{"type": ty, "name": "x", "list": []int{1, 2, 3}, "flag": g.Chance(0.5)}
 		funcs := template.FuncMap{}
@@ -107,6 +118,9 @@ func c15(g *Gen) {
 		nops := 1 + g.R.Intn(g.N(8, 20))
 		var opsS, dumps []string
 		cls := []string{"chain", fmt.Sprintf("namers-%d", len(nsNames)), "delim-" + d[0]}
+		if (d[0] == "") != (d[1] == "") {
+			cls = append(cls, "one-delimiter-empty")
+		}
 		tmplOp := map[error]int{}
 		firstErr := map[int]string{}
 		stable := true
@@ -119,7 +133,7 @@ func c15(g *Gen) {
 			switch kind {
 			case "do":
 				t := c15Templates[g.R.Intn(len(c15Templates))]
-				src := strings.NewReplacer("L", d[0], "R", d[1]).Replace(t.src)
+				src := strings.NewReplacer("L", srcL, "R", srcR).Replace(t.src)
 				// the oracle: text/template invoked directly
 				rec := &recWriter{}
 				parseErr, execErr := false, false
